@@ -443,14 +443,17 @@ class TracklistController:
 
         :param criteria: one or more rules to match by
         """
-        tlids = criteria.pop("tlid", [])
+        tlids = criteria.pop("tlid", None)
         validation.check_query(criteria, validation.TRACKLIST_FIELDS.keys())
-        validation.check_instances(tlids, int)
+        if tlids is not None:
+            validation.check_instances(tlids, int)
 
-        matches = self._tl_tracks
+        # Always work on a copy: callers like remove() mutate the tracklist
+        # while iterating over the result.
+        matches = self._tl_tracks[:]
         for key, values in criteria.items():
             matches = [ct for ct in matches if getattr(ct.track, key) in values]
-        if tlids:
+        if tlids is not None:
             matches = [ct for ct in matches if ct.tlid in tlids]
         return matches
 
